@@ -466,6 +466,17 @@ var trafficSets = []*ConvSet{
 		udp("b", "10.0.6.1", 40001, "10.0.6.2", 52, cm("b0"), sm("B1")),
 		udp("c", "10.0.6.1", 40002, "10.0.6.2", 55, cm("c0")),
 	}},
+	// flows that start at different times and fall idle one after the other: when the oldest one expires the others
+	// are still alive with different ages; the port pair of the second one is then used again (in the other
+	// direction) five and a half minutes after its last datagram - that is a new flow although younger flows
+	// are still open
+	{Name: "udp-staggered-expiry", Interleaves: single, Convs: []ConvSpec{
+		udp("a", "10.0.10.1", 4000, "10.0.10.2", 4001, cm("a0"), Msg{S2C, "A1", time.Second}),
+		udp("b", "10.0.10.3", 5000, "10.0.10.4", 6000, Msg{C2S, "b0", 2 * time.Minute}),
+		udp("c", "10.0.10.5", 5001, "10.0.10.6", 6001, Msg{C2S, "c0", 2 * time.Minute}),
+		udp("d", "10.0.10.7", 5002, "10.0.10.8", 6002, Msg{C2S, "d0", 90 * time.Second}),
+		udp("e", "10.0.10.4", 6000, "10.0.10.3", 5000, Msg{C2S, "e0", 2 * time.Minute}, sm("E1")),
+	}},
 	// every datagram / data segment travels as two IPv4 fragments (cut behind the first 8 bytes of UDP data,
 	// behind the first 4 bytes of TCP data); deviations then reorder and interleave the fragments
 	{Name: "udp4-frags", Interleaves: single, Convs: []ConvSpec{
